@@ -394,6 +394,9 @@ def sp_op(proj, ch, lab, _files):
     names = proj.sp_names if proj is not None else ch.sample(lab + ".names", render.WORDS, 9)
     tlab = proj.sp_types if proj is not None else lab
     cattr, marg, farg, kwarg, oconst, oarg, oattr, omarg, okw = names
+    if Chooser(ch.seed).fork("sp-shadow-" + tlab).chance("shadow", 0.3):
+        # a module-level name equal to the name of a parameter further down (a constant the function takes as default, say)
+        oconst = oarg
     okw2 = okw if Chooser(ch.seed).fork("sp-kw-" + tlab).chance("samekw", 0.5) else okw + "2"
     # "copy the setting of that name": the class attribute of the input module bears the name of a property of the
     # output module (the commonest real use); such a pair then addresses exactly the property of that name
@@ -513,8 +516,11 @@ def sp_op(proj, ch, lab, _files):
         else:
             pairs[j][1] = pairs[j][1] + "_nope"
     wrap = ch.choice(lab + ".wrap", [None, None, "Optional[{output_param}]", "Optional[Union[{output_param}, str]]"])
-    pre = [{"op": "env", "path": "sp_in.py", "text": inp, "label": "sp_input"}, {"op": "env", "path": "sp_out.py", "text": outp, "label": "sp_output"}]
-    op = {"op": "sync_properties", "input": "sp_in.py", "output": "sp_out.py", "pairs": pairs, "wrap": wrap, "eval": ev,
+    # a module is often named after the main definition it holds (train.py: def train)
+    in_name = tch.choice("inname", ["sp_in.py", "sp_in.py", "source_fn.py", "Source.py"])
+    out_name = tch.choice("outname", ["sp_out.py", "sp_out.py", "target_fn.py", "Target.py", "helper.py"])
+    pre = [{"op": "env", "path": in_name, "text": inp, "label": "sp_input"}, {"op": "env", "path": out_name, "text": outp, "label": "sp_output"}]
+    op = {"op": "sync_properties", "input": in_name, "output": out_name, "pairs": pairs, "wrap": wrap, "eval": ev,
           "via": ch.choice(lab + ".via", ["cli", "api"])}
     return pre, op
 
